@@ -40,9 +40,24 @@ package line
 //@   modifies q.Q.closed, list.List.lmem, list.List.lcnt, list.Element.lrk, list.Element.Value, region($alloc)
 //
 //@ func Line.popLoop
-//@   requires lwfl(c)
+//@   requires lwfl(c) && c.wg != nil
+//@   ensures #done wgDones == old(wgDones) + 1
 //@   aftercall PopAnyway use enqueued_by_addCallCtx(result)
 //@   modifies q.Q.closed, list.List.lmem, list.List.lcnt, list.Element.lrk, list.Element.Value, region($alloc)
 //@   loop 1
 //@     invariant #serial spawned() == old(spawned())
 //@     invariant lwfl(c)
+//
+// ---- life cycle: one lane goroutine, started once; Stop closes the queue once (so no new call is accepted and
+// PopAnyway drains what was accepted before the loop ends); the loop reports Done on every way out ----
+//@ func Line.Run
+//@   requires c != nil && c.wg != nil
+//@   ensures #first !old(oncedone(c.startOnce)) ==> spawned() == old(spawned()) + 1 && wgAdded == old(wgAdded) + 1
+//@   ensures #again old(oncedone(c.startOnce)) ==> spawned() == old(spawned()) && wgAdded == old(wgAdded)
+//@   modifies region($oncedone), region($spawns)
+//@ func Line.Stop
+//@   requires c != nil && c.q != nil && c.q.reqList != nil && !held(c.q.lock)
+//@   ensures #first !old(oncedone(c.stopOnce)) ==> c.q.closed
+//@   ensures #serial spawned() == old(spawned())
+//@   modifies region($oncedone), q.Q.closed, list.List.lmem, list.List.lcnt, list.Element.lrk, list.Element.Value
+
